@@ -540,6 +540,44 @@ theorem delId_removes_requested {s : St} (h : WF s) {a : Nat} (ha : a ∈ s.atom
   have hg : a ∈ s'.gone := delLoop_hits (s.atoms.length + 1) 0 m s h hm' (by omega) (by omega)
   exact ⟨hg, hw.gone_out a hg, fun hm => hw.gone_out a hg (hw.mem_atoms hm)⟩
 
+/-! ### the fuel of the deletion loop is sufficient -/
+
+theorem removeAt_atoms (c : Cfg) (s : St) (n a : Nat) : (removeAt c s n a).1.atoms = s.atoms.eraseIdx n := by
+  unfold removeAt
+  cases indexOf c s (.atom a) <;> rfl
+
+/-- with more than `len(all_atoms) - n` steps of fuel the loop ends because the list is exhausted, never because the
+fuel is: any two such amounts give the same result (both variants of the code). `delItem` starts with `len + 1`. -/
+theorem delLoop_fuel (c : Cfg) (key : Nat) : ∀ (f1 f2 n : Nat) (s : St),
+    s.atoms.length - n < f1 → s.atoms.length - n < f2 → delLoop c key f1 n s = delLoop c key f2 n s := by
+  intro f1
+  induction f1 with
+  | zero => intro f2 n s h; omega
+  | succ f1 ih =>
+    intro f2 n s h1 h2
+    cases f2 with
+    | zero => omega
+    | succ f2 =>
+      simp only [delLoop]
+      cases hn : s.atoms[n]? with
+      | none => rfl
+      | some a =>
+        have hlt : n < s.atoms.length := by
+          rcases List.getElem?_eq_some_iff.mp hn with ⟨hl, _⟩; exact hl
+        simp only []
+        by_cases hk : (atomid c s a == key) = true
+        · simp only [hk, if_true]
+          have hlen := removeAt_atoms c s n a
+          rcases hra : removeAt c s n a with ⟨s', r⟩
+          rw [hra] at hlen
+          simp only at hlen
+          cases r
+          · have hl : s'.atoms.length = s.atoms.length - 1 := by rw [hlen, List.length_eraseIdx]; simp [hlt]
+            exact ih f2 (n + 1) s' (by omega) (by omega)
+          · rfl
+        · simp only [hk]
+          exact ih f2 (n + 1) s (by omega) (by omega)
+
 /-! ### the code as of the snapshot: the property fails (witnesses, replayed on the implementation by the harness) -/
 
 /-- two atoms with identical lines (uids 2 and 3; e.g. the same atom line in two residues), one instruction, raw lines -/
